@@ -52,23 +52,17 @@ Fixpoint vd_del (p : list str) (dd : list (str * val)) : option (list (str * val
       end
   end.
 
-(* a namespace value given by the user (user-visible names) as a branch; fuel = nesting depth *)
-Fixpoint node_of_val (fuel : nat) (v : val) : node :=
-  match fuel with
-  | 0 => Leaf v
-  | S f => match v with
-           | VNs d => Branch (map (fun kv => (fst kv, node_of_val f (snd kv))) d)
-           | _ => Leaf v
-           end
+(* a namespace value given by the user (user-visible names) as a branch, and back *)
+Fixpoint node_of_val (v : val) : node :=
+  match v with
+  | VNs d => Branch (map (fun kv => (fst kv, node_of_val (snd kv))) d)
+  | _ => Leaf v
   end.
 
-Fixpoint val_of_node (fuel : nat) (n : node) : val :=
-  match fuel with
-  | 0 => VNone
-  | S f => match n with
-           | Leaf v => v
-           | Branch d => VNs (map (fun kn => (fst kn, val_of_node f (snd kn))) d)
-           end
+Fixpoint val_of_node (n : node) : val :=
+  match n with
+  | Leaf v => v
+  | Branch d => VNs (map (fun kn => (fst kn, val_of_node (snd kn))) d)
   end.
 
 (* ---- path operations ---------------------------------------------------------------------- *)
@@ -93,7 +87,7 @@ Fixpoint spec_set (p : list str) (x : node) (d : sdict) : sdict :=
   | k :: p' =>
       match lookup k d with
       | Some (Branch d') => insert k (Branch (spec_set p' x d')) d
-      | Some (Leaf (VDict dd)) => insert k (Leaf (VDict (vd_set p' (val_of_node 50 x) dd))) d
+      | Some (Leaf (VDict dd)) => insert k (Leaf (VDict (vd_set p' (val_of_node x) dd))) d
       | _ => insert k (Branch (spec_set p' x [])) d
       end
   end.
@@ -121,39 +115,34 @@ Definition spec_key (key : str) : option (list str) :=
   if mem_N SPACE key then None
   else let ks := split_key key in if existsb is_empty ks then None else Some ks.
 
-Fixpoint spec_items (fuel : nat) (branches : bool) (d : sdict) : list (str * val) :=
-  match fuel with
-  | 0 => []
-  | S f =>
+(* items: depth first, insertion order, branch before its children when `branches` *)
+Fixpoint node_items (branches : bool) (n : node) : list (str * val) :=
+  match n with
+  | Leaf _ => []
+  | Branch d =>
       flat_map (fun kn =>
         match snd kn with
         | Leaf v => [(fst kn, v)]
-        | Branch d' =>
-            (if branches then [(fst kn, val_of_node 50 (Branch d'))] else []) ++
-            map (fun sk => (join_dot (fst kn) (fst sk), snd sk)) (spec_items f branches d')
+        | Branch _ =>
+            (if branches then [(fst kn, val_of_node (snd kn))] else []) ++
+            map (fun sk => (join_dot (fst kn) (fst sk), snd sk)) (node_items branches (snd kn))
         end) d
   end.
+Definition spec_items (branches : bool) (d : sdict) : list (str * val) := node_items branches (Branch d).
 
 (* as_dict: the nested dictionary itself; namespaces held in a list / dict value become dicts *)
-Fixpoint ns_to_dict_val (fuel : nat) (v : val) : val :=
-  match fuel with
-  | 0 => v
-  | S f => match v with
-           | VNs d => VDict (map (fun kv => (fst kv, ns_to_dict_val f (snd kv))) d)
-           | VList l => if all_ns l then VList (map (ns_to_dict_val f) l) else VList l
-           | VDict dd => if all_ns (map snd dd)
-                         then VDict (map (fun kv => (fst kv, ns_to_dict_val f (snd kv))) dd) else VDict dd
-           | x => x
-           end
+Fixpoint ns_to_dict_val (v : val) : val :=
+  match v with
+  | VNs d => VDict (map (fun kv => (fst kv, ns_to_dict_val (snd kv))) d)
+  | VList l => if all_ns l then VList (map ns_to_dict_val l) else VList l
+  | VDict dd => if all_ns (map snd dd)
+                then VDict (map (fun kv => (fst kv, ns_to_dict_val (snd kv))) dd) else VDict dd
+  | x => x
   end.
 
-Fixpoint spec_as_dict (fuel : nat) (d : sdict) : list (str * val) :=
-  match fuel with
-  | 0 => []
-  | S f =>
-      map (fun kn => (fst kn,
-                      match snd kn with
-                      | Leaf v => ns_to_dict_val 50 v
-                      | Branch d' => VDict (spec_as_dict f d')
-                      end)) d
+Fixpoint node_as_dict (n : node) : val :=
+  match n with
+  | Leaf v => ns_to_dict_val v
+  | Branch d => VDict (map (fun kn => (fst kn, node_as_dict (snd kn))) d)
   end.
+Definition spec_as_dict (d : sdict) : val := node_as_dict (Branch d).
